@@ -178,3 +178,25 @@ def is_response(x):
 
 def is_request(x):
     return type(x).__name__ == "HttpRequest"
+
+
+def enum_tag(name):
+    import zlib
+    return zlib.crc32(name.encode()) & 0xFFFF
+
+
+def snapshot(obj):
+    """flat value of a cstruct instance: fields in declaration order, enum-typed fields as (enum tag, value)"""
+    out = []
+    for f in obj._type.fields if hasattr(obj, "_type") else type(obj).fields:
+        v = getattr(obj, f.name if hasattr(f, "name") else f)
+        if hasattr(v, "value") and hasattr(v, "name") and not isinstance(v, (bytes, str)):
+            out.append(enum_tag(type(v).__name__))
+            out.append(int(v.value))
+        else:
+            out.append(v)
+    return tuple(out)
+
+
+def snapshots(xs):
+    return [snapshot(x) for x in xs]
